@@ -78,6 +78,7 @@ impl Report {
 
     pub fn begin_universe(&mut self, u: u64) {
         self.cur_universe = u;
+        crate::univ::set_genesis_for(u);
         self.universes += 1;
         self.trace.clear();
         self.last_kinds.clear();
